@@ -224,6 +224,7 @@ def _life(c, prop, pushes):
     c.cov['replay_counters'] = res['counters']
     c.cov['samples'] = res['samples'][:2]
     c.log('replay: %d executed, %d completed, %d non-trivial, %s' % (res['executed'], res['completed'], res['nontrivial'], res['counters']))
+    c._life_bin = binp
     c.assumptions += ['two connections on one node, JSON protocol, in-memory transport (the WebSocket handler\'s own shutdown check before NewClient is not exercised)',
                       'threads are held only where a public interface call exists: OnConnecting, Broker.Subscribe of a connect-time subscription, OnConnect, OnAlive, Transport.Close',
                       'a close() that is neither parked nor blocked runs at once; at most one close() waits on connectMu behind a reader (wake-up order of several is arbitrary)',
@@ -237,7 +238,28 @@ def c08(c):
                      'handshake passed its authentication step, a tick or a close ran, distinct by step list')
 
 
-CHECKS = {'C09': c09, 'C43': c43, 'C36': c36, 'C08': c08}
+def c11(c):
+    _life(c, 'C11', True)
+    n1, e1, d1 = c.cov['traces_validated_against_impl'], c.cov['evaluations'], c.cov['distinct_nontrivial']
+    r = c.tlc_exhaustive('Connect', 'ConnDict', 'dict_quick.cfg' if c.tier == 'quick' else 'dict_thorough.cfg', workers=2, timeout=900, dump=True)
+    rows = [s for s in c.dump_states(r) if s['pc'] == 'done']
+    c.log('TLC ConnDict: %d scenarios' % len(rows))
+    res = c.harness(c._life_bin, 'c11dict', {'rows': rows}, timeout=1200)
+    c.absorb(res)
+    c.cov['traces_validated_against_impl'] = n1 + res['completed']
+    c.cov['evaluations'] = e1 + res['executed']
+    c.cov['distinct_nontrivial'] = d1 + res['nontrivial']
+    c.cov['samples'] += res['samples'][:1]
+    c.log('dictionary scenarios: %d executed, %d completed' % (res['executed'], res['completed']))
+    c.cov['rule'] = ('(a) behaviours of ConnLife.tla with pushes (Client.Send through Hub().Connections(), publications without history to the connect-time server-side subscription) placed while '
+                     'the connect command is parked after addClient (inside Broker.Subscribe) / in OnConnect / later, replayed by gates; (b) every scenario of ConnDict.tla (<= 2-3 frames of '
+                     'kinds rpc reply / push after the connect reply, closed by the client, Client.Disconnect or Node.Shutdown, or closed by the stale timer during OnConnecting) on a real node '
+                     'behind the real WebsocketHandler with a raw WebSocket client and a recording DictionaryCompression engine; non-trivial = completed behaviour / scenario, distinct by steps')
+    c.assumptions += ['dictionary part: JSON protocol over WebSocket text/binary messages, one connection per node; the engine marks encoded frames with a prefix byte',
+                      'what becomes of a push sent before the connect reply (delivered after it or dropped) is not part of the model\'s claim']
+
+
+CHECKS = {'C09': c09, 'C43': c43, 'C36': c36, 'C08': c08, 'C11': c11}
 
 _note9 = ('Bounds: exhaustive design check 2 commands (quick) / 3 (thorough) with arbitrarily delayed close goroutines, 1 async callback, 2 timer firings, 1 environment close; '
           'exhaustive replay: all sequences of <= 3 commands (alphabet of 56 symbols x id modes, 6 environment configurations) with <= 1 async callback; simulated replay: <= 7 commands, '
@@ -248,7 +270,15 @@ _note36 = ('Bounds: exhaustive 4 s / 5 actions (quick), 6 s / 7 actions (thoroug
            'Ping 1 s, pong timeout 0.4 s, grace delays 1 s, expiries 1-2 s, refresh extends by 2 s. Trusted: TLC, lib/tlaparse.py, harness TimerScheduler and monitor code, wall clock.')
 _note8 = ('Bounds: 2 connections, one connect-time server-side subscription, <= 2 (quick) / 3 (thorough) environment actions exhaustively with arbitrarily delayed closers; replay 400 / 4000 simulated '
           'behaviours of <= 40 steps with <= 5 environment actions. Trusted: TLC, lib/tlaparse.py, harness gates and monitor code.')
+_note11 = _note8 + ' Dictionary compression: all scenarios with <= 2 (quick) / 3 (thorough) frames after the connect reply x 3 closers + close during OnConnecting.'
 META = {
+    'C11': dict(level='model_checking',
+                text='ConnLife.tla (see C08) with pushes aimed at a connection whose connect command is still under way: the monitor "the first frame is the connect reply" is checked by TLC on the '
+                     'model and evaluated on the frames real connections received, the pushes being placed by natural gates inside the window between hub registration and the reply. '
+                     'ConnDict.tla models the codec life cycle (pending until the first write, promoted by it, Encode for every later write, closed once by close() after the writer stopped); '
+                     'every scenario is replayed over a real WebSocket connection with a recording DictionaryCompression engine: first frame raw and carrying the dictionary, later frames equal '
+                     'to the engine\'s Encode outputs in order, Close exactly once, after the last Encode and never overlapping one.',
+                note=_note11, technique='TLA+ specs + TLC exhaustive; gate replay (pushes in the connect window); scenario replay over a real WebSocket connection with a recording codec'),
     'C08': dict(level='model_checking',
                 text='ConnLife.tla models the connect handshake (OnConnecting, authentication + hub registration, connect-time server-side subscription, reply, OnConnect under connectMu, status '
                      'change, timers), the presence tick (presenceMu, OnAlive), close() (connectMu for its whole duration, status flip, hub removal, Transport.Close, presenceMu, unsubscribe loop '
